@@ -378,6 +378,10 @@ def _ar_finish(c, outcome, args, old):
     marks = [e for e in t if e.kind == "mark_step_pending"]
     failed = tm.Eq(sstate(db0, n), tm.mk_int(StepState.FAILED.value))
     c.prove("pending_only_if_it_had_failed", tm.Implies(tm.mk_bool(len(marks) > 0), failed), kind="trace")
+    # C05 / C19: FAILED is the one state that is not carried over.  Nothing else takes a recycled FAILED step out of that
+    # state within the build (reset_interrupted_steps and the start of a build phase only see attached steps, and the
+    # step was detached then), so it would never be retried and the build would end "failed" without having run it
+    c.prove("a_failed_step_is_made_pending", tm.Implies(failed, tm.mk_bool(len(marks) == 1 and marks[0].step is args["self"])), kind="trace")
     # C12: the resource requirements of the new declaration replace the stored ones on every recycle, whether or not
     # the step still has a hash (a failed hash check sends it through the resource gate with these rows)
     sets = [e for e in t if e.kind in ("call", "inline") and e.callee.endswith("Step.set_resources")]
@@ -412,7 +416,7 @@ class after_recycle:
     entry = lambda self: wrap_bool(graphdb.exists(db_of(self), "step", I(self.i)))
     finish = _ar_finish
     modifies = []
-    partial_props = {"C12": ["declared_resources_are_rewritten"]}
+    partial_props = {"C12": ["declared_resources_are_rewritten"], "C05": ["a_failed_step_is_made_pending"]}
 
 
 # ---------------------------------------------------------------- rescan_nglobs: a registration is persisted only if ITS match set changed
